@@ -22,11 +22,19 @@ theorem setRet_len (σ : XStore) (v : Val) : Len (setRet σ v) σ := by
   unfold setRet Len
   cases h : σ.frames <;> simp [h]
 
-theorem writeNameX_len (σ : XStore) (x : String) (v : Val) : Len (writeNameX σ x v) σ := by
-  unfold writeNameX
+theorem setInstVar_len (σ : XStore) (c x : String) (v : Val) : Len (setInstVar σ c x v) σ := rfl
+
+theorem writeNameC_len (cur : Option String) (σ : XStore) (x : String) (v : Val) :
+    Len (writeNameC cur σ x v) σ := by
+  unfold writeNameC
   split
   · exact setLocal_len σ x v
-  · split <;> exact rfl
+  · split
+    · split <;> exact rfl
+    · exact rfl
+
+theorem writeNameX_len (σ : XStore) (x : String) (v : Val) : Len (writeNameX σ x v) σ :=
+  writeNameC_len none σ x v
 
 theorem pushFrame_len (σ : XStore) (o : String) : (pushFrame σ o).frames.length = σ.frames.length + 1 := by
   simp [pushFrame]
@@ -40,18 +48,25 @@ theorem foldl_setLocal_len (ws : List (String × Val)) :
   | nil => intro σ; rfl
   | cons w rest ih => intro σ; exact (ih _).trans (setLocal_len σ w.1 w.2)
 
-theorem foldl_writeNameX_len (ws : List (String × Val)) :
-    ∀ σ : XStore, Len (ws.foldl (fun σ (p : String × Val) => writeNameX σ p.1 p.2) σ) σ := by
+theorem foldl_writeNameC_len (cur : Option String) (ws : List (String × Val)) :
+    ∀ σ : XStore, Len (ws.foldl (fun σ (p : String × Val) => writeNameC cur σ p.1 p.2) σ) σ := by
   induction ws with
   | nil => intro σ; rfl
-  | cons w rest ih => intro σ; exact (ih _).trans (writeNameX_len σ w.1 w.2)
+  | cons w rest ih => intro σ; exact (ih _).trans (writeNameC_len cur σ w.1 w.2)
+
+theorem foldl_setInstVar_len (c : String) (ws : List (String × Val)) :
+    ∀ σ : XStore, Len (ws.foldl (fun σ (p : String × Val) => setInstVar σ c p.1 p.2) σ) σ := by
+  induction ws with
+  | nil => intro σ; rfl
+  | cons w rest ih => intro σ; exact (ih _).trans (setInstVar_len σ c w.1 w.2)
 
 section
-variable (fs : List FuncDef)
+variable (fs : Defs)
 
 def LEval (fuel : Nat) : Prop := ∀ ctl σ e, Len (evalX fs fuel ctl σ e).1 σ
 def LBind (fuel : Nat) : Prop :=
-  ∀ ctl σ ps args pos idx acc, Len (bindParams fs fuel ctl σ ps args pos idx acc).1 σ
+  ∀ m ctl σ ps args pos idx acc, Len (bindParams fs m fuel ctl σ ps args pos idx acc).1 σ
+def LFb (fuel : Nat) : Prop := ∀ ctl σ c fb args, Len (callFb fs fuel ctl σ c fb args).1 σ
 def LInit (fuel : Nat) : Prop := ∀ ctl σ ls, Len (initLocals fs fuel ctl σ ls).1 σ
 def LCall (fuel : Nat) : Prop := ∀ ctl σ fd args, Len (callFunction fs fuel ctl σ fd args).1 σ
 def LStmt (fuel : Nat) : Prop := ∀ ctl σ s, Len (execXStmt fs fuel ctl σ s).1 σ
@@ -91,14 +106,19 @@ theorem leval_step {fuel : Nat} (hE : LEval fs fuel) (hC : LCall fs fuel) : LEva
           rcases hB : evalX fs fuel ctl σ1 r with ⟨σ2, r2⟩
           rw [hB] at h2
           cases r2 <;> exact h2.trans h
-  | call f args =>
+  | fld c f =>
     simp only [evalX]
     split
     · rfl
+    · split <;> rfl
+  | call f args =>
+    simp only [evalX]
+    split
+    · split <;> rfl
     · exact hC ctl σ _ args
 
 theorem lbind_step {fuel : Nat} (hE : LEval fs fuel) (hB : LBind fs fuel) : LBind fs (fuel + 1) := by
-  intro ctl σ ps args pos idx acc
+  intro m ctl σ ps args pos idx acc
   cases ps with
   | nil => simp only [bindParams]; rfl
   | cons p rest =>
@@ -106,28 +126,28 @@ theorem lbind_step {fuel : Nat} (hE : LEval fs fuel) (hB : LBind fs fuel) : LBin
     split
     · -- input
       split
-      · exact hB ctl σ rest args pos (idx + 1) _
+      · exact hB m ctl σ rest args pos (idx + 1) _
       · rename_i a _
         have h := hE ctl σ a
         rcases hA : evalX fs fuel ctl σ a with ⟨σ1, r1⟩
         rw [hA] at h
         cases r1 with
         | error s => exact h
-        | ok v => exact (hB ctl σ1 rest args pos (idx + 1) _).trans h
+        | ok v => exact (hB m ctl σ1 rest args pos (idx + 1) _).trans h
     · -- output
       split
-      · exact hB ctl σ rest args pos (idx + 1) _
+      · exact hB m ctl σ rest args pos (idx + 1) _
       · split
         · rfl
-        · exact hB ctl σ rest args pos (idx + 1) _
+        · exact hB m ctl σ rest args pos (idx + 1) _
     · -- in-out
       split
-      · exact hB ctl σ rest args pos (idx + 1) _
+      · exact hB m ctl σ rest args pos (idx + 1) _
       · split
         · rfl
         · split
           · rfl
-          · exact hB ctl σ rest args pos (idx + 1) _
+          · exact hB m ctl σ rest args pos (idx + 1) _
 
 
 theorem linit_step {fuel : Nat} (hE : LEval fs fuel) (hI : LInit fs fuel) : LInit fs (fuel + 1) := by
@@ -153,8 +173,8 @@ theorem lcall_step {fuel : Nat} (hB : LBind fs fuel) (hI : LInit fs fuel) (hK : 
   simp only [callFunction]
   split
   · rfl
-  · have h1 := hB ctl σ fd.params args args.allPositional 0 {}
-    rcases hA : bindParams fs fuel ctl σ fd.params args args.allPositional 0 {} with ⟨σ1, r1⟩
+  · have h1 := hB false ctl σ fd.params args args.allPositional 0 {}
+    rcases hA : bindParams fs false fuel ctl σ fd.params args args.allPositional 0 {} with ⟨σ1, r1⟩
     rw [hA] at h1
     cases r1 with
     | error s => exact h1
@@ -191,8 +211,42 @@ theorem lcall_step {fuel : Nat} (hB : LBind fs fuel) (hI : LInit fs fuel) (hK : 
           simp only
           split
           · exact lp
-          · exact (foldl_writeNameX_len _ (popFrame σ5)).trans lp
+          · exact (foldl_writeNameC_len _ _ (popFrame σ5)).trans lp
 
+
+/-- `call_function_block`: one push, and one pop on every path after it. -/
+theorem lfb_step {fuel : Nat} (hB : LBind fs fuel) (hK : LBlock fs fuel) : LFb fs (fuel + 1) := by
+  intro ctl σ c fb args
+  simp only [callFb]
+  split
+  · rfl
+  · have h1 := hB true ctl σ fb.params args args.allPositional 0 {}
+    rcases hA : bindParams fs true fuel ctl σ fb.params args args.allPositional 0 {} with ⟨σ1, r1⟩
+    rw [hA] at h1
+    cases r1 with
+    | error s => exact h1
+    | ok b =>
+      simp only
+      have h3 : (List.foldl (fun σ (p : String × Val) => setInstVar σ c p.1 p.2)
+            (pushFrame σ1 fb.name) b.paramValues).frames.length = σ.frames.length + 1 := by
+        have a := foldl_setInstVar_len c b.paramValues (pushFrame σ1 fb.name)
+        unfold Len at a h1
+        rw [a, pushFrame_len, h1]
+      have h5 := hK { ctl with cur := some c }
+        (List.foldl (fun σ (p : String × Val) => setInstVar σ c p.1 p.2) (pushFrame σ1 fb.name) b.paramValues) fb.body
+      rcases hD : execXBlock fs fuel { ctl with cur := some c }
+        (List.foldl (fun σ (p : String × Val) => setInstVar σ c p.1 p.2) (pushFrame σ1 fb.name) b.paramValues) fb.body
+        with ⟨σ4, r4⟩
+      rw [hD] at h5
+      have l4 : σ4.frames.length = σ.frames.length + 1 := by unfold Len at h5; rw [h5, h3]
+      have lp : Len (popFrame σ4) σ := by unfold Len; rw [popFrame_len, l4]; omega
+      split <;> rename_i heq <;> injection heq with e1 e2 <;> subst e1
+      · exact lp
+      · exact lp
+      · exact lp
+      · split
+        · exact lp
+        · exact (foldl_writeNameC_len _ _ (popFrame σ4)).trans lp
 
 theorem lblock_step {fuel : Nat} (hS : LStmt fs fuel) (hK : LBlock fs fuel) : LBlock fs (fuel + 1) := by
   intro ctl σ b
@@ -282,10 +336,11 @@ theorem lfor_step {fuel : Nat} (hK : LBlock fs fuel) (hF : LFor fs fuel) : LFor 
       · exact h2
       · split
         · exact h2
-        · exact ((hF ctl _ x t _ fin st body).trans (writeNameX_len σ2 x _)).trans h2
+        · exact ((hF ctl _ x t _ fin st body).trans (writeNameC_len _ σ2 x _)).trans h2
 
 theorem lstmt_step {fuel : Nat} (hE : LEval fs fuel) (hK : LBlock fs fuel) (hL : LElifs fs fuel)
-    (hF : LFor fs fuel) (hW : LWhile fs fuel) (hR : LRepeat fs fuel) : LStmt fs (fuel + 1) := by
+    (hF : LFor fs fuel) (hW : LWhile fs fuel) (hR : LRepeat fs fuel) (hFb : LFb fs fuel) :
+    LStmt fs (fuel + 1) := by
   intro ctl σ s
   cases s with
   | assign x e =>
@@ -297,7 +352,7 @@ theorem lstmt_step {fuel : Nat} (hE : LEval fs fuel) (hK : LBlock fs fuel) (hL :
     | error st => exact h1
     | ok v =>
       simp only
-      have hw := (writeNameX_len σ1 x v).trans h1
+      have hw := (writeNameC_len ctl.cur σ1 x v).trans h1
       split
       · split
         · exact (setRet_len _ _).trans hw
@@ -309,6 +364,11 @@ theorem lstmt_step {fuel : Nat} (hE : LEval fs fuel) (hK : LBlock fs fuel) (hL :
     rcases hA : evalX fs fuel ctl σ e with ⟨σ1, r1⟩
     rw [hA] at h1
     cases r1 <;> exact h1
+  | fbcall c args =>
+    simp only [execXStmt]
+    split
+    · split <;> rfl
+    · exact hFb ctl σ c _ args
   | ite c t elifs el =>
     simp only [execXStmt]
     have h1 := hE ctl σ c
@@ -359,7 +419,7 @@ theorem lstmt_step {fuel : Nat} (hE : LEval fs fuel) (hK : LBlock fs fuel) (hL :
           simp only
           split
           · exact (h3.trans h2).trans h1
-          · exact (((hF ctl _ x _ _ _ _ body).trans (writeNameX_len σ3 x _)).trans h3).trans (h2.trans h1)
+          · exact (((hF ctl _ x _ _ _ _ body).trans (writeNameC_len _ σ3 x _)).trans h3).trans (h2.trans h1)
   | «while» c body => simp only [execXStmt]; exact hW ctl σ c body
   | «repeat» body c => simp only [execXStmt]; exact hR ctl σ body c
   | exit => simp only [execXStmt]; split <;> rfl
@@ -376,13 +436,13 @@ theorem lstmt_step {fuel : Nat} (hE : LEval fs fuel) (hK : LBlock fs fuel) (hL :
 
 /-- **Frame balance of stage S4, unconditionally.** -/
 theorem xexec_frames : ∀ fuel, LEval fs fuel ∧ LBind fs fuel ∧ LInit fs fuel ∧ LCall fs fuel ∧ LStmt fs fuel ∧
-    LBlock fs fuel ∧ LElifs fs fuel ∧ LFor fs fuel ∧ LWhile fs fuel ∧ LRepeat fs fuel := by
+    LBlock fs fuel ∧ LElifs fs fuel ∧ LFor fs fuel ∧ LWhile fs fuel ∧ LRepeat fs fuel ∧ LFb fs fuel := by
   intro fuel
   induction fuel with
   | zero =>
-    refine ⟨?_, ?_, ?_, ?_, ?_, ?_, ?_, ?_, ?_, ?_⟩
+    refine ⟨?_, ?_, ?_, ?_, ?_, ?_, ?_, ?_, ?_, ?_, ?_⟩
     · intro ctl σ e; simp only [evalX]; rfl
-    · intro ctl σ ps args pos idx acc; simp only [bindParams]; rfl
+    · intro m ctl σ ps args pos idx acc; simp only [bindParams]; rfl
     · intro ctl σ ls; simp only [initLocals]; rfl
     · intro ctl σ fd args; simp only [callFunction]; rfl
     · intro ctl σ s; simp only [execXStmt]; rfl
@@ -391,11 +451,12 @@ theorem xexec_frames : ∀ fuel, LEval fs fuel ∧ LBind fs fuel ∧ LInit fs fu
     · intro ctl σ x t cur fin st body; simp only [forXLoop]; rfl
     · intro ctl σ c body; simp only [whileXLoop]; rfl
     · intro ctl σ body c; simp only [repeatXLoop]; rfl
+    · intro ctl σ c fb args; simp only [callFb]; rfl
   | succ n ih =>
-    obtain ⟨hE, hB, hI, hC, hS, hK, hL, hF, hW, hR⟩ := ih
+    obtain ⟨hE, hB, hI, hC, hS, hK, hL, hF, hW, hR, hFb⟩ := ih
     exact ⟨leval_step fs hE hC, lbind_step fs hE hB, linit_step fs hE hI, lcall_step fs hB hI hK,
-      lstmt_step fs hE hK hL hF hW hR, lblock_step fs hS hK, lelifs_step fs hE hK hL, lfor_step fs hK hF,
-      lwhile_step fs hE hK hW, lrepeat_step fs hE hK hR⟩
+      lstmt_step fs hE hK hL hF hW hR hFb, lblock_step fs hS hK, lelifs_step fs hE hK hL, lfor_step fs hK hF,
+      lwhile_step fs hE hK hW, lrepeat_step fs hE hK hR, lfb_step fs hB hK⟩
 
 end
 
@@ -405,9 +466,9 @@ theorem xcycle_frames (p : XProgram) (fuel : Nat) (st : XRunState) :
   unfold xcycle
   split
   · rfl
-  · have h : (execXBlock p.funcs fuel {} (pushFrame st.store p.name) p.body).1.frames.length
+  · have h : (execXBlock p.defs fuel {} (pushFrame st.store p.name) p.body).1.frames.length
         = st.store.frames.length + 1 := by
-      have := (xexec_frames p.funcs fuel).2.2.2.2.2.1 {} (pushFrame st.store p.name) p.body
+      have := (xexec_frames p.defs fuel).2.2.2.2.2.1 {} (pushFrame st.store p.name) p.body
       unfold Len at this
       rw [this, pushFrame_len]
     simp only
